@@ -1,7 +1,7 @@
 """Concatenation of element serialisations, defined by recursion on the prefix length so that loop
 invariants can speak about 'the first k elements' (verif/pyvc/symlist.py)."""
 from ._rec import recursive
-from .wire import le, compact_size
+from .wire import le, compact_size, hash256, sha256
 
 
 @recursive(returns="bytes")
@@ -30,3 +30,180 @@ def tx_segwit(version, ins, outs, locktime4):
     """BIP144: version | 00 01 | ins | outs | witnesses of the inputs in order | locktime"""
     return (le(version, 4) + b"\x00\x01" + compact_size(len(ins)) + concat_ser(ins, len(ins))
             + compact_size(len(outs)) + concat_ser(outs, len(outs)) + concat_wit(ins, len(ins)) + locktime4)
+
+
+# ------------------------------------------------------------------ P2P messages carrying lists (C19)
+@recursive(returns="bytes")
+def concat_inv(xs, k):
+    """inventory vectors of a getdata message: (type: uint32 LE, hash: 32 bytes in wire order) for xs[0..k-1]"""
+    if k == 0:
+        return b""
+    return concat_inv(xs, k - 1) + le(xs[k - 1][0], 4) + xs[k - 1][1][::-1]
+
+
+def getdata_msg(items):
+    """getdata: count (compact size) | inventory vectors"""
+    return compact_size(len(items)) + concat_inv(items, len(items))
+
+
+def headers_msg(headers80):
+    """headers: count | (80-byte header | transaction count 0)*"""
+    out = compact_size(len(headers80))
+    for h in headers80:
+        out += h + b"\x00"
+    return out
+
+
+def cfheaders_msg(filter_type, stop_hash, previous_filter_header, filter_hashes):
+    """BIP157 cfheaders: type (1) | stop hash (wire order) | previous filter header | count | filter hashes"""
+    out = le(filter_type, 1) + stop_hash[::-1] + previous_filter_header + compact_size(len(filter_hashes))
+    for h in filter_hashes:
+        out += h
+    return out
+
+
+def cfcheckpt_msg(filter_type, stop_hash, filter_headers):
+    """BIP157 cfcheckpt: type (1) | stop hash (wire order) | count | filter headers"""
+    out = le(filter_type, 1) + stop_hash[::-1] + compact_size(len(filter_headers))
+    for h in filter_headers:
+        out += h
+    return out
+
+
+# ------------------------------------------------------------------ BIP143 for every transaction shape (C05)
+@recursive(returns="bytes")
+def concat_outpoints(xs, k):
+    """outpoints (txid in wire order | uint32 LE index) of inputs 0..k-1"""
+    if k == 0:
+        return b""
+    return concat_outpoints(xs, k - 1) + xs[k - 1].prev_tx[::-1] + le(xs[k - 1].prev_index, 4)
+
+
+@recursive(returns="bytes")
+def concat_sequences(xs, k):
+    """nSequence (uint32 LE) of inputs 0..k-1"""
+    if k == 0:
+        return b""
+    return concat_sequences(xs, k - 1) + le(xs[k - 1].sequence, 4)
+
+
+def bip143_preimage(version, ins, outs, i, script_code, amount, locktime4, hash_type):
+    """BIP143 'Specification', items 1-10, for input i; script_code is the serialised scriptCode (with length)"""
+    acp = (hash_type & 0x80) == 0x80
+    base = hash_type & 0x1f
+    zero = b"\x00" * 32
+    hash_prevouts = zero if acp else hash256(concat_outpoints(ins, len(ins)))
+    hash_sequence = zero if (acp or base == 2 or base == 3) else hash256(concat_sequences(ins, len(ins)))
+    if base != 2 and base != 3:
+        hash_outputs = hash256(concat_ser(outs, len(outs)))
+    elif base == 3 and i < len(outs):
+        hash_outputs = hash256(outs[i].serialize())
+    else:
+        hash_outputs = zero
+    return (le(version, 4) + hash_prevouts + hash_sequence + ins[i].prev_tx[::-1] + le(ins[i].prev_index, 4) + script_code
+            + le(amount, 8) + le(ins[i].sequence, 4) + hash_outputs + locktime4 + le(hash_type, 4))
+
+
+# ------------------------------------------------------------------ BIP341 key path, no annex, for every shape (C05)
+@recursive(returns="bytes")
+def concat_amounts(xs, k):
+    """amounts (int64 LE) of the outputs spent by inputs 0..k-1"""
+    if k == 0:
+        return b""
+    return concat_amounts(xs, k - 1) + le(xs[k - 1]._value, 8)
+
+
+@recursive(returns="bytes")
+def concat_spent_spks(xs, k):
+    """scriptPubKeys (serialised as in CTxOut) of the outputs spent by inputs 0..k-1"""
+    if k == 0:
+        return b""
+    return concat_spent_spks(xs, k - 1) + xs[k - 1]._script_pubkey.serialize()
+
+
+def bip341_keypath_message(version, ins, outs, i, locktime4, hash_type):
+    """BIP341 'Common signature message' SigMsg(hash_type, ext_flag = 0) preceded by the epoch byte, no annex.
+    Only defined when hash_type is not SINGLE without a corresponding output."""
+    acp = (hash_type & 0x80) == 0x80
+    base = hash_type & 3
+    m = b"\x00" + le(hash_type, 1) + le(version, 4) + locktime4
+    if not acp:
+        m += sha256(concat_outpoints(ins, len(ins))) + sha256(concat_amounts(ins, len(ins)))
+        m += sha256(concat_spent_spks(ins, len(ins))) + sha256(concat_sequences(ins, len(ins)))
+    if base != 2 and base != 3:
+        m += sha256(concat_ser(outs, len(outs)))
+    m += b"\x00"                                           # spend_type = ext_flag * 2 + annex_present
+    if acp:
+        m += ins[i].prev_tx[::-1] + le(ins[i].prev_index, 4) + le(ins[i]._value, 8) + ins[i]._script_pubkey.serialize() + le(ins[i].sequence, 4)
+    else:
+        m += le(i, 4)
+    if base == 3:
+        m += sha256(outs[i].serialize())
+    return m
+
+
+# ------------------------------------------------------------------ original (pre-segwit) signature hash for every shape (C05)
+@recursive(returns="bytes")
+def legacy_ins(xs, k, i, blank_seq, script_code):
+    """inputs 0..k-1 as SignatureHash serialises them when ANYONECANPAY is not set: the script of input i is the
+    script code, every other script is empty; with NONE/SINGLE the other inputs' sequence numbers are zero"""
+    if k == 0:
+        return b""
+    j = k - 1
+    return (legacy_ins(xs, k - 1, i, blank_seq, script_code) + xs[j].prev_tx[::-1] + le(xs[j].prev_index, 4)
+            + (script_code if j == i else b"\x00")
+            + (le(0, 4) if (j != i and blank_seq) else le(xs[j].sequence, 4)))
+
+
+@recursive(returns="bytes")
+def null_outs(k):
+    """k default-constructed CTxOut (value -1, empty script)"""
+    if k == 0:
+        return b""
+    return null_outs(k - 1) + b"\xff\xff\xff\xff\xff\xff\xff\xff\x00"
+
+
+def legacy_through_inputs(version, ins, k, i, script_code, hash_type):
+    """version | input count | the first k inputs as seen by the signature of input i"""
+    if hash_type & 0x80:
+        own = ins[i].prev_tx[::-1] + le(ins[i].prev_index, 4) + script_code + le(ins[i].sequence, 4)
+        return le(version, 4) + compact_size(1) + (own if k > i else b"")
+    blank = (hash_type & 0x1f) == 2 or (hash_type & 0x1f) == 3
+    return le(version, 4) + compact_size(len(ins)) + legacy_ins(ins, k, i, blank, script_code)
+
+
+def legacy_out_count(outs, i, hash_type):
+    base = hash_type & 0x1f
+    return compact_size(0) if base == 2 else (compact_size(i + 1) if base == 3 else compact_size(len(outs)))
+
+
+def legacy_outs_upto(outs, k, hash_type):
+    """what the output loop has written after k iterations without leaving the loop"""
+    base = hash_type & 0x1f
+    return b"" if base == 2 else (null_outs(k) if base == 3 else concat_ser(outs, k))
+
+
+def legacy_preimage(version, ins, outs, i, script_code, locktime4, hash_type):
+    """SignatureHash (Bitcoin Core interpreter.cpp, pre-segwit) for i < len(ins) and, for SINGLE, i < len(outs)"""
+    base = hash_type & 0x1f
+    m = legacy_through_inputs(version, ins, len(ins), i, script_code, hash_type) + legacy_out_count(outs, i, hash_type)
+    if base == 3:
+        m += null_outs(i) + outs[i].serialize()
+    elif base != 2:
+        m += concat_ser(outs, len(outs))
+    return m + locktime4 + le(hash_type, 4)
+
+
+# ------------------------------------------------------------------ fee of a transaction of any shape (C11)
+@recursive(returns="int")
+def sum_values(xs, k):
+    if k == 0:
+        return 0
+    return sum_values(xs, k - 1) + xs[k - 1]._value
+
+
+@recursive(returns="int")
+def sum_amounts(xs, k):
+    if k == 0:
+        return 0
+    return sum_amounts(xs, k - 1) + xs[k - 1].amount
